@@ -17,7 +17,9 @@ RUN_ASSUMPTIONS = [
     "disabled tests/suites, lcc.Thread joined before the next act; node names unique among siblings only — reused across suites, also as the dependency "
     "targets of one test — and with dots in them (dependency targets dot-free); `with lcc.prepare_attachment` blocks around further acts, nested <= 2; "
     "raises of plain exceptions, the Abort* classes and project-defined subclasses of them, in the test's own thread, inside blocks and in lcc.Thread targets; "
-    "step descriptions that repeat); user code only uses the public API",
+    "step descriptions that repeat, are blank, multi-line or very long; lcc.Thread targets ending with a BaseException that is no Exception "
+    "(SystemExit / GeneratorExit / a project's own); Abort* constructed with no / non-string / several arguments; top-level suites named like an earlier "
+    "sub-suite; the real console backend attached to every run, output discarded); user code only uses the public API",
     "KeyboardInterrupt is delivered while the main thread waits for a completion (the delivery inside pool.apply_async is the sched stream of C08); "
     "interrupted runs are ordinary cases: every oracle applies to them unchanged (teardown order, stream grammar, verdicts) — "
     "fix D11 made skip_all_tasks release the remaining tasks in dependency order",
